@@ -325,6 +325,25 @@ def fork_side(inp):
         except BaseException as e:
             out['after'].append(['ERR ' + repr(e)[:120], None, None])
     out['targets'] = targets
+    # every OTHER unassigned code is still the same no-op on this VM: it
+    # runs, decompiles as NOPn and compiles from NOPn
+    out['others'] = {}
+    for oc in inp.get('other_codes', []):
+        res = []
+        s1 = b'\x01\x01' + bytes([oc, 1])
+        try:
+            res.append(functions.run_auth_scripts([s1]))
+        except BaseException as e:
+            res.append('ERR ' + repr(e)[:80])
+        try:
+            res.append(parsing.decompile_script(s1))
+        except BaseException as e:
+            res.append('ERR ' + repr(e)[:80])
+        try:
+            res.append(parsing.compile_script(f'true true NOP{oc} d1'))
+        except BaseException as e:
+            res.append('ERR ' + repr(e)[:80])
+        out['others'][str(oc)] = res
     return out
 
 
@@ -365,7 +384,10 @@ def judge_fork(ctx, rng, code, pred, nscripts, prefork=None):
         sources[f'count{k_}'] = f'{rng.choice((name, aliases[0]))} {txt}'
     inp = {'code': code, 'pred': pred, 'name': name, 'aliases': aliases,
            'scripts': scripts, 'sources': sources,
-           'prefork': (rng.random() < 0.6) if prefork is None else prefork}
+           'prefork': (rng.random() < 0.6) if prefork is None else prefork,
+           'other_codes': sorted({92, 93, 255, 254, (code + 1 - 92) % 164 + 92,
+                                  (code - 1 - 92) % 164 + 92,
+                                  rng.randrange(92, 256)} - {code})}
     ctx.tab('fork_process_used_old_table_first', inp['prefork'])
     with tempfile.TemporaryDirectory(dir=os.path.join(
             os.path.dirname(os.path.dirname(os.path.dirname(
@@ -452,6 +474,19 @@ def judge_fork(ctx, rng, code, pred, nscripts, prefork=None):
                           {'kind': 'fork-decompile', 'code': code,
                            'prefork': inp['prefork']}, name,
                           repr(ls)[:200])
+            break
+    for oc in inp['other_codes']:
+        ctx.evaluated()
+        want = [True, ['OP_TRUE', 'OP_TRUE', f'NOP{oc} d1'],
+                b'\x01\x01' + bytes([oc, 1])]
+        got = out.get('others', {}).get(str(oc))
+        if got != want:
+            ctx.violation('fork-disturbs-other-code', f'with code {code} '
+                          f'forked, the unassigned code {oc} no longer runs / '
+                          'decompiles / compiles as the no-op NOPn',
+                          {'kind': 'fork-others', 'code': code, 'other': oc,
+                           'prefork': inp['prefork']}, repr(want)[:160],
+                          repr(got)[:200])
             break
     for pre in out.get('decompiled_before', []):
         if not isinstance(pre, list) or \
